@@ -76,6 +76,15 @@ func C04(c *fw.Ctx) {
 				c.R.Transitions++
 			}
 		}
+		// ... and spelled with letters that Unicode normalisation would rewrite (precomposed Bangla
+		// letters NFC always decomposes, a decomposed Latin letter NFC composes)
+		if rp, ok := paramsAsBuiltins(prog, normalisationSensitiveNames); ok {
+			_, _, skipped := judge(c, rp, judgeOpts{SigPrefix: sig + "|normalisation-sensitive-parameter-names", NoOneLine: true})
+			if !skipped {
+				c.R.States++
+				c.R.Transitions++
+			}
+		}
 	}
 	// (a0) sequences of calls whose returns differ in form: a value, a bare return, falling off the end,
 	// a bare return from inside nested constructs, a bare return after an inner call returned a value,
